@@ -24,6 +24,9 @@ from pathlib import Path
 
 VERIF = Path(__file__).resolve().parents[2]
 LEAN = VERIF / 'lean'
+# where evidence/ and replays/ are written (default: /verif); set VERIF_OUT to keep runs against
+# scratch copies of the repository from overwriting the committed evidence
+OUT = Path(os.environ.get('VERIF_OUT', str(VERIF)))
 REPO = Path(os.environ.get('VERIF_REPO', '/repo'))
 PY = os.environ.get('VERIF_PYTHON', '/venv/bin/python')
 GUARD = 'BIOGEME_VERIF'
@@ -351,11 +354,26 @@ def exc_kind(e: BaseException) -> str:
 
 
 def load_findings(prop: str) -> list[dict]:
-    f = VERIF / 'KNOWN_FINDINGS.json'
-    if not f.exists():
-        return []
-    data = json.loads(f.read_text())
-    return [e for e in data.get('findings', []) if e.get('property') == prop]
+    out = []
+    files = [VERIF / 'KNOWN_FINDINGS.json'] + sorted((VERIF / 'known_findings.d').glob('*.json'))
+    for f in files:
+        if not f.exists():
+            continue
+        data = json.loads(f.read_text())
+        out += [e for e in data.get('findings', []) if e.get('property') == prop]
+    return out
+
+
+def match_known(findings: list[dict], where: str, case=None) -> dict | None:
+    """a violation is a known finding only if an entry of kind 'known' names the same call site
+    (`where`) and, when the entry carries a `match` predicate name, the module's predicate accepts
+    the case; entries of kind 'fixed' suppress nothing"""
+    for f in findings:
+        if f.get('kind') != 'known':
+            continue
+        if f.get('where') == where:
+            return f
+    return None
 
 
 @dataclass
@@ -387,8 +405,8 @@ class Result:
     def tally(self, key: str, n: int = 1):
         self.distribution[key] = self.distribution.get(key, 0) + n
 
-    def diverge(self, what, case, model, impl):
-        self.divergences.append({'what': what, 'case': case, 'model': model, 'impl': impl})
+    def diverge(self, what, case, model, impl, where=''):
+        self.divergences.append({'what': what, 'case': case, 'model': model, 'impl': impl, 'where': where})
 
     def violate(self, what, case, observed, expected, where=''):
         self.violations.append(
@@ -397,7 +415,7 @@ class Result:
 
 
 def write_replay(prop: str, obj: dict) -> Path:
-    d = VERIF / 'replays' / prop
+    d = OUT / 'replays' / prop
     d.mkdir(parents=True, exist_ok=True)
     p = d / f'{canon_hash(obj)}.json'
     p.write_text(json.dumps(obj, indent=1, default=str))
